@@ -58,7 +58,17 @@ def generate(rng, tier):
             if mode == "cfb8":
                 ok = oracle.xor(A[j], B[j]) == delta
                 return ok and A[j + 1 + bs:] == B[j + 1 + bs:]
-            # pcbc, ige: never re-synchronise
+            # pcbc, ige: block j always changes (D is a permutation); they never re-synchronise, EXCEPT by a
+            # coincidence D(x) xor D(x') = delta whose probability is 2^-(8 bs): a certainty claim only for bs >= 4
+            if A[j] == B[j]:
+                return False
+            if mode == "pcbc" and j + 1 < nb:
+                # exact shape (Errprop_proofs.v): the difference of block j+1 is dP_j xor delta and is then carried unchanged
+                d1 = oracle.xor(oracle.xor(A[j], B[j]), delta)
+                if any(oracle.xor(A[k], B[k]) != d1 for k in range(j + 1, nb)):
+                    return False
+            if bs < 4:
+                return True
             return all(A[k] != B[k] for k in range(j, nb)) and rbytes(r[sa]) != rbytes(r[sb])
         c.expect("%s: difference has exactly the prescribed support" % mode, check)
         cases.append(c)
